@@ -30,24 +30,27 @@ type ParseOptions struct {
 	Envelop bool
 }
 
-// decodeInto unmarshals in as YAML, then merges it into dest.
+// decodeInto unmarshals in as JSON or YAML, then merges it into dest.
 func decodeInto(ctx context.Context, dest *map[string]interface{}, in io.Reader) error {
 	var intermediate map[string]interface{}
 	data, err := io.ReadAll(iotools.CancelableReader(ctx, in))
 	if err != nil {
 		return wrapError(StatusBadRequest, err)
 	}
-	dec := yaml.NewDecoder(bytes.NewReader(data))
-	if err := dec.Decode(&intermediate); err != nil {
-		// The YAML parser refuses some valid JSON texts, such as characters
-		// outside the basic plane written as a pair of \u escapes.
-		if !json.Valid(data) {
-			return wrapError(StatusBadRequest, err)
-		}
-		intermediate = nil
+	// JSON is read as JSON: the YAML parser refuses some valid JSON texts
+	// (characters outside the basic plane written as a pair of \u escapes)
+	// and reads others differently (U+0085 inside a string is a line break
+	// for YAML and folded away).
+	if json.Valid(data) {
 		jd := json.NewDecoder(bytes.NewReader(data))
 		jd.UseNumber()
-		if jerr := jd.Decode(&intermediate); jerr != nil {
+		if err := jd.Decode(&intermediate); err != nil {
+			intermediate = nil // not an object: reported below as before
+		}
+	}
+	if intermediate == nil {
+		dec := yaml.NewDecoder(bytes.NewReader(data))
+		if err := dec.Decode(&intermediate); err != nil {
 			return wrapError(StatusBadRequest, err)
 		}
 	}
